@@ -6,6 +6,7 @@
         hash: id | mod3 | const | poly    (any function: the theorems hold for every hash)
         thr : cap:threshold,cap:threshold,…  (thresholds of the successive capacities; computed by the
               harness with Go's float32 arithmetic — the theorems hold for every threshold function)
+    @i <line>   address slot i of the pool of live containers (default slot 0);   @i TOF j   copy slot j into slot i
     P <L|FL|FF|F> k v   A <mode> k v   AN k v   G k   GL k   CK k   CV v   FK LK FV LV   R k   RF RL
     C   SZ IE IF   SM n   SO asc|desc   KS VS ES
 
@@ -14,6 +15,7 @@
 -/
 import Golib.HMap.Linked
 import Golib.HMap.Types
+import Golib.HMap.Multi
 import Driver.Common
 
 open HMap Drv
@@ -122,8 +124,7 @@ def newSess [DecidableEq K] (t : TypeDesc) (isEmpty : K → Bool)
     (hash : K → Nat) (cap : Nat) (tbl : List (Nat × Nat)) : Sess K :=
   { d := t.descOf isEmpty, hash := hash, thr := thrOf tbl, spec := {}, conc := LMap.new (thrOf tbl) cap }
 
-def answer (st : St) (line : String) : St × String :=
-  let ws := (line.splitOn " ").filter (fun w => !w.isEmpty)
+def answer1 (st : St) (ws : List String) : St × String :=
   match ws with
   | "N" :: tn :: hk :: cap :: thr :: rest =>
     -- a trailing `R` selects the repaired descriptor (the harness sends it once a known finding no longer reproduces)
@@ -144,4 +145,31 @@ def answer (st : St) (line : String) : St × String :=
     | .ints s => let (s', o) := stepSess parseInt toString s ws; (.ints s', o)
     | .strs s => let (s', o) := stepSess parseStrKey showStrKey s ws; (.strs s', o)
 
-def main : IO Unit := mainLoop St.none answer
+/-- `ToObject(src.ToBytes())`: every entry of the source, in its order, is put (mode last) into the target -/
+def copyInto (src : St) (dst : St) (_ : Unit) : St × String :=
+  match dst, src with
+  | .ints d, .ints s =>
+    let sp := s.spec.ents.foldl (fun acc e => (S.step d.d acc (.put .last e.1 e.2)).1) d.spec
+    let cm := (s.conc.entries s.hash).foldl (fun acc e => (LMap.step d.hash d.thr d.d acc (.put .last e.1 e.2)).1) d.conc
+    (.ints { d with spec := sp, conc := cm }, "u")
+  | .strs d, .strs s =>
+    let sp := s.spec.ents.foldl (fun acc e => (S.step d.d acc (.put .last e.1 e.2)).1) d.spec
+    let cm := (s.conc.entries s.hash).foldl (fun acc e => (LMap.step d.hash d.thr d.d acc (.put .last e.1 e.2)).1) d.conc
+    (.strs { d with spec := sp, conc := cm }, "u")
+  | _, _ => (dst, "bad-op")
+
+/-- a pool of live containers: `@i <line>` addresses slot `i` (default 0); every other slot is untouched
+    (`HMap.poolStep_frame`).  `@i TOF j` copies slot `j` into slot `i` through the serialized form. -/
+def answer (pool : Array St) (line : String) : Array St × String :=
+  let ws := (line.splitOn " ").filter (fun w => !w.isEmpty)
+  let (i, ws) := match ws with
+    | w :: rest => if w.startsWith "@" then (((w.drop 1).toNat?).getD 0, rest) else (0, ws)
+    | [] => (0, [])
+  match ws with
+  | ["TOF", j] =>
+    match parseNat j with
+    | some j => poolStep (copyInto (pool.getD j St.none)) St.none pool i ()
+    | none => (pool, "bad-op")
+  | _ => poolStep answer1 St.none pool i ws
+
+def main : IO Unit := mainLoop (Array.replicate 4 St.none) answer
